@@ -287,6 +287,9 @@ func deextract(repo string, cfg BuildConfig, ref symTable, overlay map[string][]
 					continue
 				}
 				text := flattenOne(site)
+				if os.Getenv("VERIF_DEBUG_NORMALIZE") != "" {
+					fmt.Fprintf(os.Stderr, "flatten %s:%d kw=%q args=%v -> %d bytes\n", fname, site.pkg.Fset.Position(site.stmt.Pos()).Line, site.spawnKw, site.spawn != nil, len(text))
+				}
 				if text == "" {
 					continue
 				}
@@ -523,6 +526,10 @@ func findIIFEs(pkgs map[string]*packages.Package) []iifeSite {
 						if len(s.Rhs) == 1 && (s.Tok == token.DEFINE || s.Tok == token.ASSIGN) {
 							if fl := iife(s.Rhs[0]); fl != nil {
 								out = append(out, iifeSite{pkg: pk, file: f, stmt: s, lit: fl, lhs: s.Lhs, tok: s.Tok})
+							} else if ce, ok := ast.Unparen(s.Rhs[0]).(*ast.CallExpr); ok && len(ce.Args) > 0 {
+								if fl, ok := ast.Unparen(ce.Fun).(*ast.FuncLit); ok {
+									out = append(out, iifeSite{pkg: pk, file: f, stmt: s, lit: fl, lhs: s.Lhs, tok: s.Tok, spawn: ce, spawnKw: "="})
+								}
 							}
 						}
 					case *ast.ExprStmt:
@@ -627,6 +634,49 @@ func bindSpawnArgs(site iifeSite) string {
 			return ""
 		}
 	}
+	if site.spawnKw == "=" {
+		// x, y := func(p T) (R) { B }(a)   becomes   var tmp T = a; x, y := func() (R) { var p T = tmp; B }()
+		flattenCounter++
+		k := flattenCounter
+		var out bytes.Buffer
+		var inner bytes.Buffer
+		for i, a := range call.Args {
+			var ab bytes.Buffer
+			if printNode(&ab, fset, a) != nil {
+				return ""
+			}
+			tmp := fmt.Sprintf("__arg%d_%d", k, i)
+			fmt.Fprintf(&out, "var %s %s = %s\n_ = %s\n", tmp, params[i].typ, ab.String(), tmp)
+			if params[i].name != "_" {
+				fmt.Fprintf(&inner, "var %s %s = %s\n_ = %s\n", params[i].name, params[i].typ, tmp, params[i].name)
+			}
+		}
+		var lhs []string
+		for _, e := range site.lhs {
+			var eb bytes.Buffer
+			if printNode(&eb, fset, e) != nil {
+				return ""
+			}
+			lhs = append(lhs, eb.String())
+		}
+		res, okR := resultsText(fset, lit.Type.Results)
+		if !okR {
+			return ""
+		}
+		var bb bytes.Buffer
+		for _, st := range lit.Body.List {
+			if printNode(&bb, fset, st) != nil {
+				return ""
+			}
+			bb.WriteString("\n")
+		}
+		tok := ":="
+		if site.tok == token.ASSIGN {
+			tok = "="
+		}
+		fmt.Fprintf(&out, "%s %s func() %s {\n%s%s}()\n", strings.Join(lhs, ", "), tok, res, inner.String(), bb.String())
+		return out.String()
+	}
 	var out bytes.Buffer
 	out.WriteString("{\n")
 	for i, a := range call.Args {
@@ -644,16 +694,12 @@ func bindSpawnArgs(site iifeSite) string {
 	if printNode(&bb, fset, lit.Body) != nil {
 		return ""
 	}
-	res := ""
-	if lit.Type.Results != nil && len(lit.Type.Results.List) > 0 {
-		var rb bytes.Buffer
-		if printNode(&rb, fset, lit.Type.Results) != nil {
-			return ""
-		}
-		res = " " + rb.String()
-		if !strings.HasPrefix(strings.TrimSpace(res), "(") {
-			res = " (" + strings.TrimSpace(res) + ")"
-		}
+	res, okR := resultsText(fset, lit.Type.Results)
+	if !okR {
+		return ""
+	}
+	if res != "" {
+		res = " " + res
 	}
 	fmt.Fprintf(&out, "%s func()%s %s()\n}\n", site.spawnKw, res, bb.String())
 	if site.spawnKw == "" && res != "" {
@@ -925,6 +971,30 @@ func flattenOne(site iifeSite) string {
 		text = "{\n" + text + ib.String() + "\n}\n"
 	}
 	return text
+}
+
+// resultsText renders a result list "(a, b T, err error)" (go/printer does not print a bare *ast.FieldList).
+func resultsText(fset *token.FileSet, fl *ast.FieldList) (string, bool) {
+	if fl == nil || len(fl.List) == 0 {
+		return "", true
+	}
+	var parts []string
+	for _, f := range fl.List {
+		var tb bytes.Buffer
+		if printNode(&tb, fset, f.Type) != nil {
+			return "", false
+		}
+		if len(f.Names) == 0 {
+			parts = append(parts, tb.String())
+			continue
+		}
+		var ns []string
+		for _, n := range f.Names {
+			ns = append(ns, n.Name)
+		}
+		parts = append(parts, strings.Join(ns, ", ")+" "+tb.String())
+	}
+	return "(" + strings.Join(parts, ", ") + ")", true
 }
 
 func printNode(w io.Writer, fset *token.FileSet, n any) error {
